@@ -113,6 +113,53 @@ REJECTED_THEN_USE = [
                                          "gs.mp.psi(2,ket)"]),
 ]
 
+ABORT_SWEEP = [
+    ("gs.mp.energy(2)", ["gs.mp.amplitude(2,ph,ia)", "gs.mp.expectation_value(2,1)"]),
+    ("isr.mp.pp.overlap_precursor(2,ph,ph,ia,jb)",
+     ["isr.mp.pp.s_root(2,ph,ph,ia,jb)", "isr.mp.pp.precursor(2,ph,ket,ia)"]),
+    ("expr.factor_intermediates(t2_2_like,t2_1+t2_2)",
+     ["expr.factor_intermediates(t2_2_like,t2_2)", "itmd.t2_2.expand_itmd(ijab,full)"]),
+    ("m.mp.ip.isr_matrix_block(1,h,h,i,j)", ["m.mp.ip.mvp_block_order(1,h,h,h,i)",
+                                             "isr.mp.ip.overlap_isr(1,h,h,i,j)"]),
+    ("prop.mp.pp.trans_moment(1)", ["prop.mp.pp.expectation_value(1,1)"]),
+    ("itmd.t1_3.expand_itmd(ia,full)", ["itmd.t1_3.expand_itmd(kc,once)",
+                                        "itmd.t2_2.expand_itmd(klcd,once)"]),
+    ("expr.reduce_expr(itmds)", ["expr.expand_intermediates(itmds)"]),
+    ("gs.re.amplitude(1,ph,ia)", ["gs.re.energy(2)"]),
+]
+
+
+def abort_sweep_jobs(ref, env, seed, points, targets, mode="state"):
+    probes = []
+    for tid, _ in targets:
+        st = {"op": "req", "t": tid, "abort": {"kind": "kbi", "k": 10 ** 9}}
+        probes.append({"kind": "c19", "seed": seed, "run": f"abort-probe-{tid}", "env": env,
+                       "params": dict(DEFAULT_PARAMS, abort_mode=mode, faultfree=False),
+                       "steps": [st], "ref": ref_for(ref, [st]), "timeout": 900})
+    res = host.run_jobs(probes)
+    jobs = []
+    for (tid, follow), r in zip(targets, res):
+        if r.get("harness_error") or r.get("harness_timeout") or not r["stats"]["abort_n"]:
+            raise RuntimeError(f"abort sweep probe for {tid} failed: "
+                               f"{str(r.get('harness_error'))[-500:]}")
+        n = r["stats"]["abort_n"][0]
+        rng = derive(seed, "c19", "abort-sweep", tid)
+        if n <= points:
+            ks = list(range(1, n + 1))
+        else:  # evenly spread, jittered by the seed
+            ks = sorted({1 + min(n - 1, int((i + rng.random()) * n / points))
+                         for i in range(points)})
+        for k in ks:
+            kind = "mem" if k % 4 == 0 else "kbi"
+            steps = [{"op": "req", "t": tid, "abort": {"kind": kind, "k": k}}]
+            steps += [{"op": "req", "t": f} for f in follow if f in ref]
+            jobs.append({"kind": "c19", "seed": seed, "run": f"abort-{tid}-{k}", "env": env,
+                         "params": dict(DEFAULT_PARAMS, abort_mode=mode, faultfree=False,
+                                        shared=bool(k % 2)),
+                         "steps": steps, "ref": ref_for(ref, steps), "timeout": 900})
+    return jobs
+
+
 TWINS = [
     ("gs.mp.expectation_value(2,1)", "gs.mp.expectation_value(1,2)"),
     ("gs.mps.expectation_value(2,1)", "gs.mps.expectation_value(1,2)"),
@@ -248,6 +295,17 @@ def run(tier, seed):
                              "steps": steps, "ref": ref_for(ref, steps), "timeout": 900})
     submit(jobs, "systematic")
     log(f"[C19] systematic histories: {len(jobs)} runs, {time.time() - t0:.0f}s")
+
+    # ---- abort sweep: selected requests cut at every n-th eligible line event, then
+    # re-issued and followed by requests that share their cached ingredients
+    try:
+        jobs = abort_sweep_jobs(ref, pool[0], seed, points=120 if thorough else 10,
+                                targets=ABORT_SWEEP if thorough else ABORT_SWEEP[:4])
+    except RuntimeError as exc:
+        log(f"HARNESS-ERROR {exc}")
+        return 2
+    submit(jobs, "abort-sweep")
+    log(f"[C19] abort sweep: {len(jobs)} runs, {time.time() - t0:.0f}s")
 
     # ---- seeded histories (default configuration) and configuration runs
     run_no = 0
